@@ -460,14 +460,28 @@ for b in (1, 2, 5, 6, 7):
 for size in (5, 8):
     for b in (0, 3, 4, 5):
         c20_cases.append(case("mirror of %d entries, broken=%d" % (size, b), "VerifC20Witness", [1, size, b], ["healthy"] if b == 0 else ["unhealthy"], T))
+c20_cases.append(case("/health aggregation over a regular and a staging log", "VerifC20Health", [0], ["green", "red"], Q))
+c19_cases = []
+for kind, groups, partial in [(0, 1, 0), (0, 1, 1), (1, 1, 0), (1, 1, 1), (2, 1, 0), (2, 1, 1), (3, 1, 0), (3, 1, 1), (1, 2, 0)]:
+    c19_cases.append(case("tile route kind %d groups %d partial %d" % (kind, groups, partial), "VerifC19Tile", [kind, groups, partial],
+                          [["hash tile"], ["data tile"], ["names tile"], ["data tile"]][kind], Q))
+c19_cases += [case("checkpoint, metadata and issuer routes", "VerifC19Fixed", [], ["checked"], Q),
+              case("filesOnlyFS hides directories", "VerifC19FilesOnly", [], ["file", "refused"], Q)]
+CHECKS["C19"] = {
+    "level": "other",
+    "explanation": "Partial claim decided by bounded symbolic execution of the repository's own read-path code: the four log route handlers (closures of main, located by route pattern and bound by the engine) and filesOnlyFS. For every layout path built from symbolic digits the response headers present at dispatch (content type, gzip content-encoding exactly for data/names tiles and entry bundles, immutable cache policy for tiles and issuers, no-store for checkpoints), the handler chosen (rate-limited or not) and the path handed to the file handler are asserted; filesOnlyFS never returns a directory. The witness/mirror origin routes (prefix stripping through http.StripPrefix and a nested ServeMux) could not be carried through net/http's ServeMux by the engine and are outside the claim. Confinement to the configured directory and byte-exact file serving are provided by os.Root and net/http.FileServerFS (standard library over system calls) and are NOT encoded; ServeMux routing itself is not executed.",
+    "jobs": [dict(SKYLIGHT, harness=["cmd_skylight/zz_verif_c20.go", "cmd_skylight/zz_verif_c19.go"], native=False, cases=c19_cases)],
+    "bounds": {"quick": "tile paths tile/<level digit>|data|names|entries/ with 1-2 groups of three symbolic digits and an optional .p/<digit> suffix; 4-character symbolic issuer name", "thorough": "same"},
+    "assumptions": ["os.Root confinement, http.FileServerFS and http.ServeMux are not encoded (standard library over system calls)", "handlers are dispatched to stand-in file handlers that record headers, context and path", "http.Header and context are executed from their real source"],
+}
 CHECKS["C20"] = {
     "level": "model_checking",
-    "jobs": [dict(SKYLIGHT, harness=["cmd_skylight/zz_verif_c20.go"], native=False, cases=c20_cases)],
+    "jobs": [dict(SKYLIGHT, harness=["cmd_skylight/zz_verif_c20.go", "cmd_skylight/zz_verif_c19.go"], native=False, cases=c20_cases)],
     "bounds": {"quick": "checkLog: signing key right/wrong, origin right/wrong, final tree absent / matching / wrong hash / wrong size / wrong timestamp, time past the NotAfter limit and checkpoint age fully symbolic (64-bit durations); "
                         "witness directories and mirrors of 1-4 entries with one condition broken at a time (unpublished key, wrong directory name, one arbitrary byte of the right-edge tile at any position, missing tile, mirror ahead of pending, pending not signed by the witness, pending of another origin)",
                "thorough": "mirrors of 5 and 8 entries"},
     "assumptions": [IDEAL_HASH, "ideal ECDSA / ML-DSA signatures", "in-memory fs.FS behind os.Root.FS; JSON metadata, x509.ParsePKIXPublicKey, time.Parse and vkey parsing are contracts; note.Open, torchwood (ParseCheckpoint, TileFS, TileHashReader, RightEdge) and tlog are executed from their real source",
-                    "the /health handler's aggregation loop (a closure inside main) is outside the claim: checkLog and witnessHealth.{loadVerifiers,hashes,check} are what is verified"],
+                    "the /health handler closure of main is located by its route pattern and executed with its captured variables bound by the engine (two logs, one of them staging); its loop over witness checks is exercised only with no witness configured"],
 }
 
 # ---------------------------------------------------------------- manifest texts
@@ -522,6 +536,10 @@ MANIFEST_TEXT = {
     "C16": {
         "text": "bounded symbolic execution of processSignSubtreeRequest and splitSignatures with the real torchwood ValidSubtree/CheckSubtree/cosignature code and note.Open over a small forked log: every (start, end, checkpoint size), nine signer combinations on the presented checkpoint (including foreign and forged lines), right/wrong/other-branch subtree hash and right/corrupted proof; an answer implies an independently recomputed valid range within the checkpoint, the right subtree hash, and exactly one valid subtree cosignature per own ML-DSA key whose cosignature is on the checkpoint",
         "note": "logs of 4 (quick) / 8 (thorough) leaves; ideal hashing and signatures; sizes and ranges beyond the small log are outside the claim",
+    },
+    "C19": {
+        "text": "PARTIAL: bounded symbolic execution of the repository's own read-path code — the four log route handlers of skylight's main (closures located by route pattern and bound by the engine) and filesOnlyFS — for layout paths built from symbolic digits: headers present at dispatch (content type, gzip content-encoding exactly for data/names tiles and entry bundles, immutable cache policy for tiles and issuers, no-store for checkpoints), the file handler chosen and the exact path handed to it, and that directories are never opened",
+        "note": "level 'other': confinement to the configured directory and byte-exact serving are provided by os.Root and net/http.FileServerFS (standard library over system calls) and are not encoded; ServeMux routing and the witness/mirror prefix routes are outside the claim",
     },
     "C20": {
         "text": "bounded symbolic execution of checkLog and witnessHealth.loadVerifiers/hashes/check over in-memory directory trees with the real note, torchwood and tlog code: for logs every combination of key, origin and final-tree condition with fully symbolic clock differences is compared with an independent decision table (healthy / sunset / unhealthy); for witness and mirror directories each condition is broken alone (unpublished key, wrong directory, an arbitrary byte at any position of the right-edge tile, missing tile, mirror ahead of pending, pending not cosigned, foreign pending origin) and must turn the result into a failure that names the log",
